@@ -15,9 +15,15 @@ TECHNIQUE = ("Hypothesis-generated programs of commits / local commits / "
              "tip, local tips, pending merges); tip-change order observed "
              "through the public post_change_branch_tip hook")
 RULE = ("program of 3-12 steps drawn from commit-in-checkout, commit-in-master "
-        "(directly or through a lightweight checkout), local commit, update, "
-        "pull, unbind/bind, over 1-3 heavyweight checkouts, optionally with a "
-        "master that is itself bound. Non-trivial: the master moved between two "
+        "(directly or through a lightweight checkout), local commit, update "
+        "(also to an older revision), pull from the master, pull from an "
+        "independent branch with a stop revision (through the tree or the "
+        "branch alone, which leaves the tree behind), unbind/bind, over 1-3 "
+        "heavyweight checkouts, optionally with a master that is itself bound; "
+        "one case in six starts with unbind / branch-level pull / bind / update "
+        "or commit (branch, tree and master all different). Revision numbers "
+        "are compared with the left-hand history of the model graph. "
+        "Non-trivial: the master moved between two "
         "operations of the same checkout (a refusal or a catching-up update "
         "happened), or a local commit was later merged back by update. Distinct "
         "by case hash.")
